@@ -174,8 +174,16 @@ def run(prog: Program, rep, thorough: bool) -> None:
     rep.saw(vfr)
     st = State()
     roles = _sock_roles(prog.func(C.M_TC, '_WindSock.__init__'))
-    sock = ev.new_inst(st, wsc, {roles['winds']: SymObj('winds'), roles['index']: S('k'), roles['next']: S('nr'),
-                                 roles['cache']: SymObj('cache'), roles['length']: S('n')})
+    # built by its own __init__ (so that attributes the rule does not know get their real initial values), then the
+    # five role attributes are replaced by symbols for a generic mid-flight state
+    sock = ev.new_inst(st, wsc, {})
+    init0 = prog.func(C.M_TC, '_WindSock.__init__')
+    try:
+        ev.call_func(init0, [SymObj('winds')], {}, st, Ctx(tc, None, None, 0), self_val=sock)
+    except Undecided as exc:
+        raise AnalysisError(f'_WindSock.__init__: {exc}') from exc
+    st.heap[sock.oid].update({roles['winds']: SymObj('winds'), roles['index']: S('k'), roles['next']: S('nr'),
+                              roles['cache']: SymObj('cache'), roles['length']: S('n')})
     try:
         tree, st = ev.run_func(vfr, {vfr.positional[0]: sock, vfr.positional[1]: S('r')}, st)
     except Undecided as exc:
